@@ -119,6 +119,21 @@ class Ctx:
         except Exception:
             pass
         self.rows_ok = self.layout.bind_rows(self.env.current_state.tensor)
+        self.rows_fallback = False
+        if not self.rows_ok and "subnets" in spec:
+            # rows cannot be identified from their address cells (a C09 matter, reported there). The dynamics
+            # checks go on with the documented row order = order of the scenario's host listing, so that their
+            # own oracles can still speak instead of giving up.
+            try:
+                order = [tuple(int(x) for x in a) for a in self.scenario.hosts.keys()]
+                if sorted(order) == sorted(self.layout.addrs) and \
+                        self.env.current_state.tensor.shape == (self.layout.nhosts, self.layout.width):
+                    self.layout.addrs = order
+                    self.layout.row_of = {a: i for i, a in enumerate(order)}
+                    self.rows_ok = True
+                    self.rows_fallback = True
+            except Exception:
+                pass
         self.model = Model(spec, self.layout.addrs)
         self.actions = list(self.env.action_space.actions) + [NoOp()]
         self.mactions = []
@@ -227,7 +242,8 @@ def plan_path_keys(ctx, cap=None):
     return set(k for k, _, _, _ in path)
 
 
-def explore(ctx, oracles, max_states=None, record_graph=False, action_rep="object", root_state=None, expand_only=None):
+def explore(ctx, oracles, max_states=None, record_graph=False, action_rep="object", root_state=None, expand_only=None,
+            reverse=False):
     """BFS over the implementation's reachable states. Returns dict with counts (and the graph).
     action_rep="param": every action is handed to a parameterised-action environment as its parameter
     vector (actions without a vector are skipped), so the decode path of that space is inside the loop."""
@@ -251,13 +267,13 @@ def explore(ctx, oracles, max_states=None, record_graph=False, action_rep="objec
     else:
         reps = list(ctx.actions)
     try:
-        return _explore(ctx, oracles, max_states, record_graph, reps, root_state, expand_only)
+        return _explore(ctx, oracles, max_states, record_graph, reps, root_state, expand_only, reverse)
     finally:
         if action_rep == "param":
             ctx.env = ctx.env_object
 
 
-def _explore(ctx, oracles, max_states, record_graph, reps, root_state=None, expand_only=None):
+def _explore(ctx, oracles, max_states, record_graph, reps, root_state=None, expand_only=None, reverse=False):
     env, seam, model, layout = ctx.env, ctx.seam, ctx.model, ctx.layout
     if not ctx.rows_ok:
         raise HarnessError(f"{ctx.name}: initial tensor rows do not carry the scenario's addresses "
@@ -286,7 +302,9 @@ def _explore(ctx, oracles, max_states, record_graph, reps, root_state=None, expa
     sides = ("below", "above")
     pre_hooks = [o for o in oracles if hasattr(o, "pre_transition")]
     while frontier:
-        s, key = frontier.popleft()
+        # reverse=True: deepest states first (anything the code remembers from deep states is then in place when
+        # the shallow ones are expanded)
+        s, key = frontier.pop() if reverse else frontier.popleft()
         ms = ctx.decode(key, s.tensor)
         for o in oracles:
             o.on_state(ctx, s, key, ms)
